@@ -82,6 +82,15 @@ def _status_sites(project, st):
     cfg, f = st.cfg, st.func
     wvars = set(st.worker_lists) | set(st.proc_vars)
     out = []
+    # locals computed from the exit status (`failed = [w.exitcode for w in workers if w.exitcode not in (None, 0)]`): a test of
+    # such a local is a test of the status
+    status_vars = set()
+    for _round in range(2):
+        for x in own_nodes(f.node):
+            if isinstance(x, ast.Assign) and len(x.targets) == 1 and isinstance(x.targets[0], ast.Name):
+                if any((isinstance(y, ast.Attribute) and y.attr == "exitcode") or (isinstance(y, ast.Call) and callee_attr(y) == "is_alive")
+                       or (isinstance(y, ast.Name) and y.id in status_vars) for y in ast.walk(x.value)):
+                    status_vars.add(x.targets[0].id)
     for n in cfg.nodes:
         for e in cfg.expr_of(n):
             direct = False
@@ -90,10 +99,21 @@ def _status_sites(project, st):
                     direct = True
                 if isinstance(x, ast.Call) and callee_attr(x) == "is_alive":
                     direct = True
+                if n.kind == "if" and isinstance(x, ast.Name) and x.id in status_vars:
+                    direct = True
             if direct and n.kind == "if":
                 # a raise must be control dependent on it
                 if any(isinstance(y, ast.Raise) for y in ast.walk(n.ast)):
                     out.append((n, "direct"))
+                    # `for w in workers: if w.exitcode ...: raise`: the loop as a whole is the inspection (it runs once per worker;
+                    # with no workers there is nothing to inspect)
+                    for s_, blk_ in enclosing_stmts(f.node, n.ast):
+                        if isinstance(s_, ast.For) and isinstance(s_.iter, ast.Name) and s_.iter.id in wvars and isinstance(s_.target, ast.Name) \
+                                and any(isinstance(y, ast.Attribute) and y.attr == "exitcode" and isinstance(y.value, ast.Name) and y.value.id == s_.target.id
+                                        for y in ast.walk(n.ast.test)):
+                            ln = cfg.node_of_stmt(s_)
+                            if ln is not None:
+                                out.append((ln, "loop over " + s_.iter.id))
         for c in cfg.calls_at(n):
             tgt, effs = common.helper_effects(project, f, c)
             if tgt is None:
@@ -568,6 +588,23 @@ def _r4_context_managers(run, stages):
 FAILING_CODES = (1, 2, 255, -9, -11)
 
 
+def _mutated_while_iterated(fnode):
+    """[(for stmt, mutating call)] where the body of `for x in L` removes entries from L itself (L.remove / L.pop / del L[..]):
+    CPython's list iterator then skips the element that slides into the freed slot."""
+    out = []
+    for lp in [n for n in ast.walk(fnode) if isinstance(n, ast.For)]:
+        key = ast.dump(lp.iter)
+        for st_ in lp.body:
+            for x in ast.walk(st_):
+                if isinstance(x, ast.Call) and isinstance(x.func, ast.Attribute) and x.func.attr in ("remove", "pop", "clear") and ast.dump(x.func.value).replace("Store()", "Load()") == key:
+                    out.append((lp, x))
+                if isinstance(x, ast.Delete):
+                    for t_ in x.targets:
+                        if isinstance(t_, ast.Subscript) and ast.dump(t_.value) == key:
+                            out.append((lp, x))
+    return out
+
+
 def _r6_status_meaning(run):
     """The *meaning* of every exit-status test: wherever the package raises depending on a worker's ``exitcode``,
     the raise must be reached for every failing exit code (positive codes of an uncaught exception / sys.exit(n) and
@@ -605,6 +642,13 @@ def _r6_status_meaning(run):
             continue
         n += 1
         run.note_func(f)
+        mw = [(lp, x) for lp, x in _mutated_while_iterated(f.node) if any(isinstance(y, ast.Attribute) and y.attr == "exitcode" for y in ast.walk(lp))]
+        if mw:
+            lp, x = mw[0]
+            run.violated("C19.R6", f, x, "%s takes entries out of `%s` (line %d) inside the loop that walks over it to read the exit status: the list iterator skips the "
+                         "worker that slides into the freed slot, so in that pass the status of the worker following a cleanly exited one is never looked at" % (
+                             f.short, ast.unparse(lp.iter), x.lineno), kind="status-test-not-every-worker")
+            continue
         ev = sym.make_evaluator(project, f.module.name, [], inline_local=True)
         try:
             res = ev.run(f.node)
@@ -632,6 +676,33 @@ def _r6_status_meaning(run):
         params = set(f.params())
         each = who[0] == "elem" and who[1][0] == "sym" and who[1][1] in params
         single = who[0] == "sym" and who[1] in params
+        own_list = None
+        if not each and who[0] == "elem" and who[1][0] == "attr" and who[1][1] == ("sym", "self") and f.cls is not None:
+            # a method of a pool object testing `self.<list>`: every worker, provided the list is what the constructor filled with
+            # the processes it started and no method takes entries out of it
+            own_list = who[1][2]
+            siblings = [g_ for g_ in project.py_funcs() if g_.cls is f.cls]
+            filled = False
+            shrunk = None
+            for g_ in siblings:
+                for x in own_nodes(g_.node):
+                    if isinstance(x, ast.Call) and isinstance(x.func, ast.Attribute) and isinstance(x.func.value, ast.Attribute) \
+                            and isinstance(x.func.value.value, ast.Name) and x.func.value.value.id == "self" and x.func.value.attr == own_list:
+                        if x.func.attr == "append" and g_.name == "__init__":
+                            filled = True
+                        elif x.func.attr in ("remove", "pop", "clear") or (x.func.attr == "append" and g_.name != "__init__"):
+                            shrunk = (g_, x)
+                    if isinstance(x, (ast.Assign, ast.AugAssign, ast.Delete)) and g_.name != "__init__":
+                        tg_ = x.targets if isinstance(x, (ast.Assign, ast.Delete)) else [x.target]
+                        for t_ in tg_:
+                            for y in ast.walk(t_):
+                                if isinstance(y, ast.Attribute) and isinstance(y.value, ast.Name) and y.value.id == "self" and y.attr == own_list:
+                                    shrunk = (g_, x)
+            if shrunk is not None:
+                run.undecided("C19.R6", f, reads[0], "the exit status is tested on the entries of self.%s, which %s changes at line %d: cannot tell whether every started "
+                              "worker is still among them when the status is read" % (own_list, shrunk[0].short, shrunk[1].lineno), kind="status-test-subject-unknown")
+                continue
+            each = filled
         if not (each or single):
             kind_ = "status-test-not-every-worker" if who[0] in ("item", "sub", "last") or (who[0] == "elem" and who[1][0] in ("sub", "item")) else None
             if kind_:
@@ -653,13 +724,24 @@ def _r6_status_meaning(run):
                 arg = t[2][0]
             if arg is not None and arg[0] == "op" and arg[1] == "comp":
                 kind__, elt, _it, cnd = arg[2][:4]
-                if not (_it[0] == "sym" and _it[1] in params):
+                if not ((_it[0] == "sym" and _it[1] in params) or (own_list is not None and _it == ("attr", ("sym", "self"), own_list))):
                     return teval.UNKNOWN
                 v_ = rec(elt)
                 c_ = rec(cnd)
                 if v_ is teval.UNKNOWN or c_ is teval.UNKNOWN:
                     return teval.UNKNOWN
                 return bool(v_) and bool(c_)
+            if t[0] == "op" and t[1] == "comp" and len(t[2]) >= 4:
+                # [<f(w)> for w in workers if <test of w>] used as a condition (`failed = [...]; if failed: raise`): non-empty as soon
+                # as the failing worker passes the test -- its own entry stands for the list
+                kind__, elt, _it, cnd = t[2][:4]
+                if not ((_it[0] == "sym" and _it[1] in params) or (own_list is not None and _it == ("attr", ("sym", "self"), own_list))):
+                    return teval.UNKNOWN
+                c_ = rec(cnd)
+                v_ = rec(elt)
+                if c_ is teval.UNKNOWN or v_ is teval.UNKNOWN:
+                    return teval.UNKNOWN
+                return (v_,) if c_ else ()
             return NotImplemented
         for code in FAILING_CODES:
             v = teval.teval(cond, {subj: code}, hooks=[some_worker])
